@@ -183,7 +183,7 @@ theorem renderN_le (inl : Mode) (files : Files) {J J' : RJ} (hJ : JLe J J') :
         cases e with
         | notFound =>
           cases hasFb with
-          | true => exact renderL_le inl files hJ fb .full st
+          | true => exact renderL_le inl files hJ fb rng.fresh st
           | false => exact Le.refl _
         | syntaxErr => exact Le.refl _
         | undefined => exact Le.refl _
@@ -301,7 +301,7 @@ theorem renderN_kc (files : Files) {J : RJ} (hJ : ∀ rng ns st, KC (J rng ns st
           cases e with
           | notFound =>
             cases hasFb with
-            | true => exact renderL_kc files hJ fb .full st
+            | true => exact renderL_kc files hJ fb rng.fresh st
             | false => exact KC.err
           | syntaxErr => exact KC.err
           | undefined => exact KC.err
